@@ -1,6 +1,7 @@
 import StepModel.P21.LexLemmas
 import StepModel.P21.LexNumber
 import StepModel.P21.LexGap
+import StepModel.P21.FloatShape
 import StepModel.P21.AggrLemmas
 import StepModel.Generated.P21RWGen
 import StepModel.Generated.P21LexGen
@@ -909,8 +910,33 @@ theorem fmt_one_and_a_half : dblOps.fmtG15 0x3FF8000000000000 = [49, 46, 53] := 
 
 example : FloatLaws dblOps 0x3FF8000000000000 where
   shape := ⟨[], [49], [46, 53], none, by rw [fmt_one_and_a_half]; rfl, Or.inl rfl, by decide, by decide,
-    Or.inr ⟨[53], rfl, by decide, by decide⟩, trivial⟩
+    Or.inr ⟨[53], rfl, by decide⟩, trivial⟩
   stable := ⟨⟨false, 15, -1⟩, by rw [fmt_one_and_a_half]; rfl, by rfl⟩
+
+/-- REAL / NUMBER writer, conforming, at full strength over the executable float model: for *every* finite double (biased
+    exponent ≠ 2047, i.e. not INF/NAN) `WriteReal` over `dblOps` writes a token of the grammar `real` — it always has a
+    decimal point and an upper-case `E` — denoting exactly the decimal `%.15G` printed.  Law L2 is a theorem here
+    (`dbl_fmtG15_shape`), not a hypothesis; `dblOps.fmtG15` itself is compared with the platform's `%.15G` bit for bit on
+    every run (`fl g15`). -/
+theorem C09_writer_real_conforming_model (bits : Nat) (hfin : (bits / Dbl.pow2 52 % 2048 == 2047) = false) :
+    isReal (attrWrite dblOps .real (.real bits)) = true ∧ isReal (attrWrite dblOps .number (.real bits)) = true ∧
+    denoteReal (attrWrite dblOps .real (.real bits)) = parseFloatText (dblOps.fmtG15 bits) :=
+  have h := C09_write_real_conforming dblOps bits (dbl_fmtG15_shape bits hfin)
+  ⟨h.1, h.1, h.2⟩
+
+/-- … and it reads back: for every finite double whose 15-digit print converts back to it (`stable`: the doubles nearest to a
+    decimal of at most 15 significant digits — DBL_DIG; validated against the platform on the writer grid) and that is not
+    the in-band null, the written token followed by any `Gap` and a delimiter is read to the same double with no error.
+    Only `stable` remains a hypothesis; the shape law is discharged by the model. -/
+theorem C09_writer_real_reads_back_model (cfg : LexCfg) (lookup : Int → RefLookup) (nullable : Bool) (bits : Nat)
+    (hfin : (bits / Dbl.pow2 52 % 2048 == 2047) = false)
+    (hstable : ∃ dec, parseFloatText (dblOps.fmtG15 bits) = some dec ∧ dblOps.ofDecimal dec = some bits)
+    (hnn : dblOps.isRealNull bits = false)
+    (hbuf : cfg.realBuf = 0 ∨ (attrWrite dblOps .real (.real bits)).length < cfg.realBuf)
+    (sp rest : List Byte) (d : Byte) (hsp : Gap cfg sp) (hd : d = 44 ∨ d = 41) :
+    attrRead dblOps cfg lookup .real nullable (IStream.ofBytes (attrWrite dblOps .real (.real bits) ++ sp ++ d :: rest)) =
+      .ok ⟨.null, .real bits, { left := sp.reverse ++ (attrWrite dblOps .real (.real bits)).reverse, right := d :: rest }⟩ :=
+  C09_write_read_real dblOps cfg lookup nullable bits ⟨dbl_fmtG15_shape bits hfin, hstable⟩ hnn hbuf sp rest d hsp hd
 
 /-! ### NUMBER: full theorems through the scan/parse equivalence of `in >> d` -/
 
